@@ -3,12 +3,15 @@ module verif/harness
 go 1.23
 
 require (
+	github.com/anishathalye/porcupine v1.3.0
 	github.com/atomix/go-sdk v0.13.3
+	github.com/gogo/protobuf v1.3.2
 	github.com/onosproject/onos-api/go v0.10.32
 	github.com/onosproject/onos-config v0.0.0
 	github.com/onosproject/onos-lib-go v0.10.17
 	github.com/openconfig/gnmi v0.9.1
 	google.golang.org/grpc v1.54.0
+	google.golang.org/protobuf v1.28.1
 	pgregory.net/rapid v1.3.0
 )
 
@@ -28,7 +31,6 @@ require (
 	github.com/eapache/queue v1.1.0 // indirect
 	github.com/ericchiang/oidc v0.0.0-20160908143337-11f62933e071 // indirect
 	github.com/fsnotify/fsnotify v1.5.1 // indirect
-	github.com/gogo/protobuf v1.3.2 // indirect
 	github.com/golang-jwt/jwt/v5 v5.0.0 // indirect
 	github.com/golang/glog v1.0.0 // indirect
 	github.com/golang/mock v1.6.0 // indirect
@@ -72,7 +74,6 @@ require (
 	golang.org/x/sys v0.6.0 // indirect
 	golang.org/x/text v0.8.0 // indirect
 	google.golang.org/genproto v0.0.0-20230110181048-76db0878b65f // indirect
-	google.golang.org/protobuf v1.28.1 // indirect
 	gopkg.in/ini.v1 v1.66.4 // indirect
 	gopkg.in/square/go-jose.v1 v1.1.2 // indirect
 	gopkg.in/square/go-jose.v2 v2.6.0 // indirect
